@@ -60,10 +60,16 @@ Print Assumptions C04_enc_dec.
    wf_utf8 = git's own notion: pick_one_utf8_char never reports an invalid
    sequence (overlongs, surrogates, > U+10FFFF, U+FFFE/U+FFFF rejected). *)
 Theorem C04_hfs_dot_eq_git : forall name needle,
-  is_bytes name = true -> wf_utf8 name = true -> tlacks 0 name = true -> tlacks 47 name = true ->
+  is_bytes name = true -> utf8_guard name = true -> tlacks 0 name = true -> tlacks 47 name = true ->
   is_hfs_dot name needle = git_is_hfs_dot name needle.
-Proof. exact hfs_dot_eq_git. Qed.
+Proof. exact hfs_dot_eq_git2. Qed.
 Print Assumptions C04_hfs_dot_eq_git.
+
+(* utf8_guard name = wf_utf8 name || "the first non-ignored character is not '.'":
+   well-formedness is only asked of names that start like a dot-file *)
+Theorem C04_wf_utf8_guard : forall name, wf_utf8 name = true -> utf8_guard name = true.
+Proof. exact wf_utf8_guard. Qed.
+Print Assumptions C04_wf_utf8_guard.
 
 (* without well-formedness only one inclusion survives: what go-git calls
    .<needle> git does too *)
@@ -111,7 +117,7 @@ Proof. exact needles_ok_all. Qed.
    and is_ntfs_dotgit again on every suffix that follows a backslash.  Whatever
    ValidTreePath accepts, git does not report as hasDotgit. *)
 Theorem C04_has_dotgit_refused : forall n,
-  is_bytes n = true -> wf_utf8 n = true -> tlacks 0 n = true -> tlacks 47 n = true ->
+  is_bytes n = true -> utf8_guard n = true -> tlacks 0 n = true -> tlacks 47 n = true ->
   valid_tree_path n = true -> git_has_dotgit n = false.
 Proof. exact has_dotgit_refused. Qed.
 Print Assumptions C04_has_dotgit_refused.
@@ -119,14 +125,14 @@ Print Assumptions C04_has_dotgit_refused.
 (* git's .gitmodules verdict on a name, in go-git's terms: the two whole-name
    tests of Validate plus the one it does not make (NTFS variants after a backslash) *)
 Theorem C04_dotgitmodules_eq : forall n,
-  is_bytes n = true -> wf_utf8 n = true -> tlacks 0 n = true -> tlacks 47 n = true ->
+  is_bytes n = true -> utf8_guard n = true -> tlacks 0 n = true -> tlacks 47 n = true ->
   git_is_dotgitmodules n =
   is_hfs_dot n N_gitmodules || is_ntfs_dot n N_gitmodules S_gi7eba || ntfs_gitmodules_after_backslash n.
 Proof. exact dotgitmodules_eq. Qed.
 Print Assumptions C04_dotgitmodules_eq.
 
 Theorem C04_dotgitmodules_symlink : forall n,
-  is_bytes n = true -> wf_utf8 n = true -> tlacks 0 n = true -> tlacks 47 n = true -> tlacks 92 n = true ->
+  is_bytes n = true -> utf8_guard n = true -> tlacks 0 n = true -> tlacks 47 n = true -> tlacks 92 n = true ->
   git_is_dotgitmodules n = true -> dot_symlink_name n = true.
 Proof. exact dotgitmodules_symlink. Qed.
 Print Assumptions C04_dotgitmodules_symlink.
@@ -142,9 +148,9 @@ Theorem C04_written_clean_structural : forall es b,
 Proof. exact written_clean_structural. Qed.
 Print Assumptions C04_written_clean_structural.
 
-(* ... and fsck --strict reports NOTHING when every name is a well-formed UTF-8
-   byte string and no symlink has an NTFS variant of .gitmodules after a
-   backslash (name_guard, boolean).  Both conditions are needed: the witnesses
+(* ... and fsck --strict reports NOTHING when every name that starts like a
+   dot-file is well-formed UTF-8 (utf8_guard) and no symlink has an NTFS variant
+   of .gitmodules after a backslash (name_guard, boolean).  Both conditions are needed: the witnesses
    below are written trees that fail exactly one of them. *)
 Theorem C04_written_clean_partial : forall es b,
   Forall (fun e => List.length (t_hash e) = 20%nat) es ->
@@ -233,6 +239,7 @@ Example C04_guard_example :
              mkT 33188 [97; 226; 128; 140; 98] (repeat 2 20);                      (* a U+200C b *)
              mkT 33188 [240; 159; 152; 128; 46; 103; 105; 116] (repeat 3 20);      (* U+1F600 .git *)
              mkT 40960 [120; 92; 121] (repeat 4 20);                               (* symlink x\y *)
+             mkT 33188 [99; 97; 102; 233; 46; 103; 105; 116; 255] (repeat 6 20);   (* Latin-1 "caf E9 .git FF": not UTF-8 *)
              mkT 33188 [120; 92; 103; 105; 55; 101; 98; 97; 126; 49] (repeat 5 20) (* file x\gi7eba~1 *)] in
   forallb name_guard es = true /\
   match encode es with Some b => git_fsck_tree 20 b = [] | None => False end.
